@@ -1121,3 +1121,31 @@ Lemma adopter_uniform t m1 xs r k :
   c_exsub (cfg_of m1 r) = xs ->
   (adopter t m1 r k <-> is_recursive m1 r = true /\ In (k, true) t /\ is_subpkg r k = true /\ excluded_by xs k = false).
 Proof. intros <-. unfold adopter, exclude, excluded_by. tauto. Qed.
+
+(* ------------------------------------------------------------------ *)
+(* nearest = longest                                                   *)
+
+Lemma is_subpkg_length a b : is_subpkg a b = true -> length a <= length b.
+Proof.
+  intros H. apply is_subpkg_cases in H as [->|[x ->]]; [lia|]. rewrite app_length. simpl. lia.
+Qed.
+Lemma is_subpkg_same_length a b : is_subpkg a b = true -> length a = length b -> a = b.
+Proof.
+  intros H L. apply is_subpkg_cases in H as [->|[x ->]]; [reflexivity|].
+  rewrite app_length in L. simpl in L. lia.
+Qed.
+
+(* among the configured recursive packages that pull k in, the one with the longest path is below
+   all others - whatever else is configured, whatever the names of the other packages *)
+Lemma longest_is_nearest t m1 r k :
+  adopter t m1 r k -> (forall r', adopter t m1 r' k -> length r' <= length r) ->
+  forall r', adopter t m1 r' k -> is_subpkg r' r = true.
+Proof.
+  intros Hr Hmax r' Hr'. pose proof (Hmax _ Hr') as Hl.
+  destruct Hr as (_ & _ & Hs & _). destruct Hr' as (_ & _ & Hs' & _).
+  destruct (sltb r' r) eqn:E1; [eapply is_subpkg_chain; eassumption|].
+  destruct (sltb r r') eqn:E2.
+  - pose proof (is_subpkg_chain _ _ _ Hs Hs' E2) as H. pose proof (is_subpkg_length _ _ H).
+    assert (r = r') as -> by (apply is_subpkg_same_length; [exact H | lia]). apply is_subpkg_refl.
+  - pose proof (sltb_total _ _ E1 E2). subst. apply is_subpkg_refl.
+Qed.
